@@ -43,25 +43,25 @@ Print Assumptions defaults_as_in_source.
    with its own guard and is also covered by the root guard).  A removed, weakened or reordered
    guard, or a new unguarded remove, makes the corresponding statement false. *)
 Theorem guard_dominates_forget : dominates (entry_facts EForget) = true.
-Proof. vm_compute; reflexivity. Qed.
+Proof. exact guard_dominates_forget_lemma. Qed.
 Print Assumptions guard_dominates_forget.
 Theorem guard_dominates_prune : dominates (entry_facts EPrune) = true.
-Proof. vm_compute; reflexivity. Qed.
+Proof. exact guard_dominates_prune_lemma. Qed.
 Print Assumptions guard_dominates_prune.
 Theorem guard_dominates_repair_index : dominates (entry_facts ERepairIndex) = true.
-Proof. vm_compute; reflexivity. Qed.
+Proof. exact guard_dominates_repair_index_lemma. Qed.
 Print Assumptions guard_dominates_repair_index.
 Theorem guard_dominates_repair_snapshots : dominates (entry_facts ERepairSnapshots) = true.
-Proof. vm_compute; reflexivity. Qed.
+Proof. exact guard_dominates_repair_snapshots_lemma. Qed.
 Print Assumptions guard_dominates_repair_snapshots.
 Theorem guard_dominates_rewrite : dominates (entry_facts ERewrite) = true.
-Proof. vm_compute; reflexivity. Qed.
+Proof. exact guard_dominates_rewrite_lemma. Qed.
 Print Assumptions guard_dominates_rewrite.
 Theorem guard_dominates_rewrite_trees : dominates (entry_facts ERewriteTrees) = true.
-Proof. vm_compute; reflexivity. Qed.
+Proof. exact guard_dominates_rewrite_trees_lemma. Qed.
 Print Assumptions guard_dominates_rewrite_trees.
 Theorem guard_dominates_apply_config : dominates (entry_facts EApplyConfig) = true.
-Proof. vm_compute; reflexivity. Qed.
+Proof. exact guard_dominates_apply_config_lemma. Qed.
 Print Assumptions guard_dominates_apply_config.
 (* strength of the guards as found in the source: forget / prune / repair index refuse
    unconditionally under append-only, repair snapshots and rewrite iff their delete / forget option
@@ -83,18 +83,18 @@ Print Assumptions guards_as_documented.
 Theorem guard_dominates_unguarded_entries :
   forallb (fun e => dominates (entry_facts e))
     [EBackup; EDeleteKey; EAddKey; ECopyInto; EMerge; ESaveSnapshots; EInitHot] = true.
-Proof. vm_compute; reflexivity. Qed.
+Proof. exact guard_dominates_unguarded_entries_lemma. Qed.
 Print Assumptions guard_dominates_unguarded_entries.
 (* the two hot/cold repair entries have no guard and only copy files between the parts *)
 Theorem hotcold_entries_only_copy :
   hotcold_shape (entry_facts ERepairHotcold) = true /\ hotcold_shape (entry_facts ERepairHotcoldPacks) = true.
-Proof. split; vm_compute; reflexivity. Qed.
+Proof. exact hotcold_entries_only_copy_lemma. Qed.
 Print Assumptions hotcold_entries_only_copy.
 
 (* Every direct storage call outside the backend layer lies in a function that belongs to a
    modelled entry point (or to the packer / indexer / init implementation). *)
 Theorem inventory_closed : inventory_closed_b = true.
-Proof. vm_compute; reflexivity. Qed.
+Proof. exact inventory_closed_lemma. Qed.
 Print Assumptions inventory_closed.
 
 (* For EVERY sequence of modelled public operations, every option valuation and every choice of
